@@ -462,7 +462,29 @@ TCOST = "vrp_core::models::problem::costs::TransportCost::"
 LEG_RANK = {"prev": 0, "first": 0, "start": 0, "from": 0, "target": 1, "next": 2, "second": 2, "end": 2, "to": 2}
 
 
+def _declared_leg_role(fn, op):
+    """role declared by the name of the variable the operand is a copy of (next_act_location, prev_loc, ...)"""
+    cur = op
+    for _ in range(6):
+        if not mir.is_place(cur) or cur["p"]:
+            return None
+        nm = fn["names"].get(str(cur["l"]))
+        if nm:
+            for role in ("next", "prev", "target"):
+                if role in nm.split("_") or nm.startswith(role + "_") or nm == role:
+                    return role
+            return None
+        ds = mir.defs(fn).get(cur["l"], [])
+        if len(ds) != 1 or ds[0][0] != "s" or ds[0][3]["r"]["k"] != "use":
+            return None
+        cur = ds[0][3]["r"]["o"][0]
+    return None
+
+
 def _leg_rank(fn, op):
+    role = _declared_leg_role(fn, op)
+    if role:
+        return {role}
     out = set()
     for k, v, p in mir.trace(fn, op):
         hit = [x for x in p if x in ("prev", "target", "next")]
